@@ -69,6 +69,16 @@ def contiguous_family(max_bytes):
 _REPO_LAYOUTS = None
 
 
+def _is_notation(x):
+    """[mask, byte offset] or ['b' | 'w' | 'dw', offset, length]: the two notations decode_bits / encode_dict understand"""
+    if not isinstance(x, (list, tuple)):
+        return False
+    ints = lambda *vs: all(isinstance(i, int) and not isinstance(i, bool) for i in vs)
+    if len(x) == 2:
+        return ints(x[0], x[1])
+    return len(x) == 3 and x[0] in ("b", "w", "dw") and ints(x[1], x[2])
+
+
 def repo_layouts():
     """every class-level layout table of the package: {qualified name: dict}; collected mechanically"""
     global _REPO_LAYOUTS
@@ -81,7 +91,7 @@ def repo_layouts():
 
         for cls in classes + [SCSICommand]:
             for k, v in vars(cls).items():
-                if isinstance(v, dict) and v and all(isinstance(x, (list, tuple)) and len(x) in (2, 3) for x in v.values()):
+                if isinstance(v, dict) and v and all(_is_notation(x) for x in v.values()) and all(isinstance(kk, str) for kk in v):
                     out["%s.%s.%s" % (cls.__module__.rsplit(".", 1)[-1], cls.__name__, k)] = v
         _REPO_LAYOUTS = out
     return _REPO_LAYOUTS
